@@ -645,6 +645,14 @@ impl QueryRouter {
                 // Multi-tables delete are not supported in postgres.
                 assert!(d.tables.is_empty());
 
+                // The table we are deleting from, needed to match a table-qualified sharding key.
+                match &d.from {
+                    sqlparser::ast::FromTable::WithFromKeyword(tables)
+                    | sqlparser::ast::FromTable::WithoutKeyword(tables) => {
+                        Self::process_tables_with_join(tables, &mut exprs, &mut table_names);
+                    }
+                }
+
                 if let Some(using_tbl_with_join) = &d.using {
                     Self::process_tables_with_join(
                         using_tbl_with_join,
